@@ -6,6 +6,8 @@ type RouteCase struct {
 	Kind       string      `json:"kind"` // mux | grpc | grpcmux
 	Items      []RouteItem `json:"items"`
 	Sequential bool        `json:"sequential"`
+	Proc       string      `json:"proc"`  // "" = in-process pair; otherwise a real plugin subprocess launched this way (cmd | runner | runner-translate)
+	TLS        string      `json:"tls"`   // (proc) none | auto
 	DispG      int         `json:"dispG"` // goroutines dispensing concurrently (mux only)
 	DispN      int         `json:"dispN"` // distinct plugin names
 	JitterUs   int         `json:"jitterUs"`
@@ -16,8 +18,8 @@ type RouteItem struct {
 	Dir         string `json:"dir"` // who dials: host | plugin
 	AcceptFirst bool   `json:"acceptFirst"`
 	GapMs       int    `json:"gapMs"`
-	Len         int    `json:"len"` // payload length (mux)
-	ID          uint32 `json:"id"`  // broker id; ids are per accepting side, so the same number is used in both directions
+	Len         int    `json:"len"`    // payload length (mux)
+	ID          uint32 `json:"id"`     // broker id; ids are per accepting side, so the same number is used in both directions
 	SlowMs      int    `json:"slowMs"` // (grpc kinds) the server factory passed to AcceptAndServe takes this long
 	Redial      bool   `json:"redial"`
 	AtExpiry    bool   `json:"atExpiry"` // (redial) issued about 5 s after the previous dial to this listener: the moment the broker expires that dial's bookkeeping
@@ -63,5 +65,7 @@ type RouteEnd struct {
 	Minted   int64          `json:"minted"`
 	MaxPend  int            `json:"maxPend"`
 	Returned bool           `json:"returned"`
+	P2HCalls int            `json:"p2hCalls"` // (proc, custom runner) AddrTranslator calls observed
+	H2PCalls int            `json:"h2pCalls"`
 	Dump     string         `json:"dump,omitempty"`
 }
